@@ -165,6 +165,8 @@ class BitmapHist : public Engine {
         bool prev_big = false;
         int prev_special = -1; // slot that was just cleared / cloned into / reloaded
         int pending_perturb = 0, perturb_obj = 0, perturb_src = 0;
+        int cleared_run = -1;
+        std::vector<size_t> rare_targets; // operations on rarely reached allocation paths
         for (size_t i = 0; i < nops; i++) {
             uint32_t t = (uint32_t)r.below(total), k = 0;
             while (t >= w[k]) t -= w[k++];
@@ -176,6 +178,20 @@ class BitmapHist : public Engine {
             Op op;
             int o = (int)r.below(r.chance(2, 3) ? 1 : NOBJ);
             int next_special = -1;
+            int force_clear = -1;
+            for (int t = 0; t < NOBJ; t++)
+                if (g.is_run[t] == 1 && g.m[t].any() && r.chance(1, 8)) force_clear = t;
+            if (force_clear >= 0 && pending_perturb == 0) {
+                k = CLEAR;
+                o = force_clear;
+            }
+            if (cleared_run >= 0 && r.chance(2, 3)) {
+                // a cleared run container (still RUNS, no runs) is converted by its next Add/Remove
+                k = r.chance(2, 3) ? ADD : REMOVE;
+                o = cleared_run;
+                rare_targets.push_back(p.ops.size());
+            }
+            cleared_run = -1;
             if (pending_perturb > 0) {
                 // remove a member / add a non-member of the clone, biased to its upper half
                 pending_perturb--;
@@ -263,6 +279,7 @@ class BitmapHist : public Engine {
                 op.set("obj", o);
                 g.m[o].reset();
                 next_special = o;
+                if (g.is_run[o] == 1) cleared_run = o;
                 break;
             case CLONE: {
                 op.kind = "clone";
@@ -355,13 +372,15 @@ class BitmapHist : public Engine {
             prev_special = next_special;
             for (int t = 0; t < NOBJ; t++) {
                 if (g.is_run[t] == 2) g.is_run[t] = 1;
-                else if (g.is_run[t] == 1 && (op.u("obj", 99) == (uint64_t)t || op.u("dst", 99) == (uint64_t)t) && op.kind != "reload")
+                else if (g.is_run[t] == 1 && (op.u("obj", 99) == (uint64_t)t || op.u("dst", 99) == (uint64_t)t) && op.kind != "reload" && op.kind != "clear")
                     g.is_run[t] = 0;
             }
         }
         if (faults_) {
             // one operation gets every k; sometimes further ops get a single fault
             size_t target = r.chance(2, 3) ? p.ops.size() - 1 : r.below(p.ops.size());
+            if (!rare_targets.empty() && r.chance(3, 4)) target = rare_targets[r.below(rare_targets.size())];
+            if (target >= p.ops.size()) target = p.ops.size() - 1;
             p.ops[target].sets("fail", "all");
             if (r.chance(1, 4))
                 for (size_t i = 0; i < p.ops.size(); i++)
